@@ -12,7 +12,7 @@ use dryoc::types::*;
 use libsodium_sys as so;
 
 fn so_generichash(outlen: usize, key: &[u8], msg: &[u8]) -> String {
-    let mut out = vec![0u8; outlen];
+    let mut out = vec![0xA5u8; outlen];
     let kp = if key.is_empty() { std::ptr::null() } else { key.as_ptr() };
     let r = unsafe {
         so::crypto_generichash(out.as_mut_ptr(), outlen, msg.as_ptr(), msg.len() as u64, kp, key.len())
@@ -51,7 +51,7 @@ pub fn dispatch(op: &str, a: &[&str]) -> Option<Ans> {
     Some(match op {
         "poly1305" => {
             let key: [u8; 32] = arr(&b[0]);
-            let mut mac = [0u8; 16];
+            let mut mac = [0xA5u8; 16];
             crypto_onetimeauth(&mut mac, &b[1], &key);
             let mut smac = [0u8; 16];
             unsafe { so::crypto_onetimeauth(smac.as_mut_ptr(), b[1].as_ptr(), b[1].len() as u64, key.as_ptr()) };
@@ -63,7 +63,7 @@ pub fn dispatch(op: &str, a: &[&str]) -> Option<Ans> {
             for c in &b[1..] {
                 crypto_onetimeauth_update(&mut st, c);
             }
-            let mut mac = [0u8; 16];
+            let mut mac = [0xA5u8; 16];
             crypto_onetimeauth_final(st, &mut mac);
             let all: Vec<u8> = b[1..].concat();
             let mut smac = [0u8; 16];
@@ -105,7 +105,7 @@ pub fn dispatch(op: &str, a: &[&str]) -> Option<Ans> {
         }
         "auth" => {
             let key: [u8; 32] = arr(&b[0]);
-            let mut mac = [0u8; 32];
+            let mut mac = [0xA5u8; 32];
             crypto_auth(&mut mac, &b[1], &key);
             let mut smac = [0u8; 32];
             unsafe { so::crypto_auth(smac.as_mut_ptr(), b[1].as_ptr(), b[1].len() as u64, key.as_ptr()) };
@@ -117,7 +117,7 @@ pub fn dispatch(op: &str, a: &[&str]) -> Option<Ans> {
             for c in &b[1..] {
                 crypto_auth_update(&mut st, c);
             }
-            let mut mac = [0u8; 32];
+            let mut mac = [0xA5u8; 32];
             crypto_auth_final(st, &mut mac);
             let all: Vec<u8> = b[1..].concat();
             let mut smac = [0u8; 32];
@@ -160,7 +160,7 @@ pub fn dispatch(op: &str, a: &[&str]) -> Option<Ans> {
         "generichash" => {
             let outlen: usize = a[0].parse().unwrap();
             let key = &b[0];
-            let mut out = vec![0u8; outlen];
+            let mut out = vec![0xA5u8; outlen];
             let r = crypto_generichash(&mut out, &b[1], if key.is_empty() { None } else { Some(key) });
             let s = if outlen >= 16 && outlen <= 64 && (key.is_empty() || (key.len() >= 16 && key.len() <= 64)) { so_generichash(outlen, key, &b[1]) } else { "err".into() }; // libsodium's documented ranges (BYTES_MIN/KEYBYTES_MIN); the C function itself is laxer
             (if r.is_ok() { ok(&out) } else { "err".into() }, s)
@@ -174,7 +174,7 @@ pub fn dispatch(op: &str, a: &[&str]) -> Option<Ans> {
                 for c in &b[1..] {
                     crypto_generichash_update(&mut st, c);
                 }
-                let mut out = vec![0u8; outlen];
+                let mut out = vec![0xA5u8; outlen];
                 crypto_generichash_final(st, &mut out)?;
                 Ok(out)
             })();
@@ -198,7 +198,7 @@ pub fn dispatch(op: &str, a: &[&str]) -> Option<Ans> {
             (r, na())
         }
         "sha512" => {
-            let mut d = [0u8; 64];
+            let mut d = [0xA5u8; 64];
             crypto_hash_sha512(&mut d, &b[0]);
             let mut s = [0u8; 64];
             unsafe { so::crypto_hash_sha512(s.as_mut_ptr(), b[0].as_ptr(), b[0].len() as u64) };
@@ -209,7 +209,7 @@ pub fn dispatch(op: &str, a: &[&str]) -> Option<Ans> {
             for c in &b[..] {
                 crypto_hash_sha512_update(&mut st, c);
             }
-            let mut d = [0u8; 64];
+            let mut d = [0xA5u8; 64];
             crypto_hash_sha512_final(st, &mut d);
             let all: Vec<u8> = b.concat();
             let mut s = [0u8; 64];
@@ -233,7 +233,7 @@ pub fn dispatch(op: &str, a: &[&str]) -> Option<Ans> {
         }
         "shorthash" => {
             let key: [u8; 16] = arr(&b[0]);
-            let mut h = [0u8; 8];
+            let mut h = [0xA5u8; 8];
             crypto_shorthash(&mut h, &b[1], &key);
             let mut s = [0u8; 8];
             unsafe { so::crypto_shorthash(s.as_mut_ptr(), b[1].as_ptr(), b[1].len() as u64, key.as_ptr()) };
@@ -251,7 +251,7 @@ pub fn dispatch(op: &str, a: &[&str]) -> Option<Ans> {
                 None
             };
             let cp = if b.len() > 2 { b[2].as_ptr() } else { std::ptr::null() };
-            let mut out = [0u8; 32];
+            let mut out = [0xA5u8; 32];
             let mut s = [0u8; 32];
             if op == "hsalsa20" {
                 crypto_core_hsalsa20(&mut out, &inp, &key, cst);
